@@ -7,9 +7,9 @@ use std::collections::BTreeMap;
 use std::sync::{Arc, Mutex};
 
 #[derive(Clone, Copy, Debug)]
-enum Op { /** scale: 300 attach/remove rounds of a device on a free port (ids are never reused, so later ids pass 2^8) */ Churn, Add(&'static [u16]), Remove(u16), SetKb, SetDisp, Mmap(u16, bool), Munmap(u16), Read(u16), Write(u16) }
-const OPS: [Op; 33] = [
-    Op::Churn,
+enum Op { /** scale: 300 attach/remove rounds of a device on a free port (ids are never reused, so later ids pass 2^8) */ Churn, /** the library's own NullDevice (answers nothing) attached to ports */ AddNull(&'static [u16]), Add(&'static [u16]), Remove(u16), SetKb, SetDisp, Mmap(u16, bool), Munmap(u16), Read(u16), Write(u16) }
+const OPS: [Op; 36] = [
+    Op::Churn, Op::AddNull(&[0xFE16]), Op::AddNull(&[0xFE10, 0xFE18]), Op::Add(&[0xFE16]),
     Op::Add(&[0xFE10]), Op::Add(&[0xFE12]), Op::Add(&[0xFE10, 0xFE12]), Op::Add(&[0xFE00]), Op::Add(&[0x3000]), Op::Add(&[]), Op::Add(&[0xFE12, 0xFE12]), Op::Add(&[0xFE14, 0xFE06]),
     Op::Remove(0), Op::Remove(1), Op::Remove(2), Op::Remove(3), Op::Remove(4), Op::Remove(5),
     Op::SetKb, Op::SetDisp,
@@ -20,7 +20,7 @@ const OPS: [Op; 33] = [
     // the last I/O address
     Op::Add(&[0xFFFF]), Op::Read(0xFFFF), Op::Write(0xFFFF),
 ];
-const PROBES: [u16; 8] = [0xFE00, 0xFE02, 0xFE06, 0xFE10, 0xFE12, 0xFE14, 0xFFFC, 0xFFFF];
+const PROBES: [u16; 10] = [0xFE00, 0xFE02, 0xFE06, 0xFE10, 0xFE12, 0xFE14, 0xFE16, 0xFE18, 0xFFFC, 0xFFFF];
 
 /// recording device: every call it receives is logged under its tag
 #[derive(Clone)]
@@ -31,6 +31,8 @@ impl ExternalDevice for Rec {
     fn io_reset(&mut self) {}
     fn poll_interrupt(&mut self) -> Option<Interrupt> { None }
 }
+/// tag of a device that owns ports but answers nothing (NullDevice): reads fall through to the memory cell, writes reach nobody
+const SILENT: u16 = 0xFFFF;
 fn rec_value(tag: u16, addr: u16) -> u16 { 0x5000 | (tag << 8) | (addr & 0xFF) }
 
 /// RefPorts — port-ownership table written from the property statement.
@@ -78,6 +80,19 @@ fn apply(w: &mut World, op: Op) -> Result<(), (String, String)> {
             }
             expect_calls = vec![];
         }
+        Op::AddNull(ports) => {
+            let exp_ok = ports.iter().all(|p| *p >= 0xFE00 && w.model.owner.get(p).is_none());
+            let exp_id = w.model.devs.len() as u16;
+            let r = w.sim.device_handler.add_device(lc3_ensemble::sim::device::NullDevice, ports);
+            match (r.is_ok(), exp_ok) {
+                (true, true) => { let id = r.ok().unwrap(); if id != exp_id { return Err(("device-id".into(), format!("{what}: returned id {id}, expected {exp_id} (ids are never reused)"))); }
+                    w.model.devs.push(Some(SILENT)); for p in ports { w.model.owner.insert(*p, exp_id); } }
+                (false, false) => {}
+                (true, false) => return Err(("add-accepts".into(), format!("{what}: add_device succeeded though a port is not I/O or already owned (owners {:x?})", w.model.owner))),
+                (false, true) => return Err(("add-rejects".into(), format!("{what}: add_device failed though every port is a free I/O port (owners {:x?})", w.model.owner))),
+            }
+            expect_calls = vec![];
+        }
         Op::Churn => {
             for _ in 0..300 {
                 let exp_id = w.model.devs.len() as u16;
@@ -117,7 +132,7 @@ fn apply(w: &mut World, op: Op) -> Result<(), (String, String)> {
             let got = w.sim.read_mem(a, priv_ctx()).map(|x| x.get()).map_err(|e| ("read-error".to_string(), format!("{what}: {e:?}")))?;
             let (exp, calls) = if let Some(pc) = w.model.iregs.get(&a) { (if *pc { PCV } else { SSPV }, vec![]) }
                 else if a == 0xFFFC && w.model.psr_mapped { (psr, vec![]) }
-                else if let Some(t) = w.model.owner.get(&a).and_then(|id| w.model.devs[*id as usize]) { (rec_value(t, a), vec![(t, false, a, 0)]) }
+                else if let Some(t) = w.model.owner.get(&a).and_then(|id| w.model.devs[*id as usize]).filter(|t| *t != SILENT) { (rec_value(t, a), vec![(t, false, a, 0)]) }
                 else { (mirror, vec![]) };
             if got != exp { return Err(("read-value".into(), format!("{what}: read x{got:04X}, expected x{exp:04X} (internal mappings {:x?}, owners {:x?})", w.model.iregs, w.model.owner))); }
             expect_calls = calls;
@@ -132,7 +147,7 @@ fn apply(w: &mut World, op: Op) -> Result<(), (String, String)> {
                 if now != v { return Err(("write-internal".into(), format!("{what}: internal register holds x{now:04X} after writing x{v:04X}"))); }
                 if *pc { w.sim.pc = PCV; } else { let _ = w.sim.write_mem(a, Word::new_init(SSPV), MemAccessCtx::omnipotent()); }
                 expect_calls = vec![];
-            } else if let Some(t) = w.model.owner.get(&a).and_then(|id| w.model.devs[*id as usize]) { expect_calls = vec![(t, true, a, v)]; }
+            } else if let Some(t) = w.model.owner.get(&a).and_then(|id| w.model.devs[*id as usize]).filter(|t| *t != SILENT) { expect_calls = vec![(t, true, a, v)]; }
             else {
                 if w.sim.mem[a] != mirror { return Err(("unowned-write-changes-memory".into(), format!("{what}: memory cell changed from {mirror:?} to {:?} though no device owns the port", w.sim.mem[a]))); }
                 expect_calls = vec![];
@@ -149,7 +164,12 @@ fn fingerprint(w: &mut World) -> u64 {
     for a in PROBES { let v = w.sim.read_mem(a, MemAccessCtx::omnipotent()).map(|x| x.get()).unwrap_or(0xEEEE); h = mix(h, (a as u64) << 16 | v as u64); }
     // device tags are history-dependent names: fold in which tag answers at each probe (already in the values) and how many devices exist
     // the property speaks about history (ids are NEVER reused), so the number of ids issued so far is part of the state even if the implementation forgets it
-    mix(mix(h, w.next_tag as u64), w.model.devs.len() as u64)
+    // ... and so is the reference's ownership table: a history after which the implementation still shows a port as owned while the reference has
+    // freed it must not be merged with the history in which it really is owned
+    for (p, o) in &w.model.owner { h = mix(h, (*p as u64) << 16 | *o as u64); }
+    for (i, d) in w.model.devs.iter().enumerate() { h = mix(h, (i as u64) << 1 | d.is_some() as u64); }
+    for (a, pc) in &w.model.iregs { h = mix(h, (*a as u64) << 1 | *pc as u64); }
+    mix(mix(h, w.next_tag as u64), w.model.devs.len() as u64 * 2 + w.model.psr_mapped as u64)
 }
 fn visit(h: &[u16]) -> Visit {
     let r = catch(|| {
